@@ -149,22 +149,47 @@ class C08(E1Prop):
             self.nprobes += 1
             op = {'op': 'probe', 'i': op['i'], 'dt': op['dt'],
                   'pick': rng.randrange(10 ** 9),
-                  'nmax': 6 if tier == 'quick' else 0}
+                  'nmax': 7 if tier == 'quick' else 0}
+        elif op['op'] == 'api' and self.nprobes < maxp and \
+                rng.random() < 0.7:
+            self.nprobes += 1
+            op = {'op': 'probe', 'api': op, 'dt': op['dt'],
+                  'pick': rng.randrange(10 ** 9),
+                  'nmax': 7 if tier == 'quick' else 0}
         return op
 
-    def actions(self, w, r, npush):
-        """One third-party action per (push index, action kind)."""
+    def actions(self, w, r, npush, cmds=()):
+        """One third-party action per (push index, action kind), plus
+        placements before other git commands of the job (the windows that
+        open between the clone and each push)."""
         srcs = [p['src'] for p in w.pr_table()
                 if p['author'] != ROBOT and p['state'] == 'OPEN' and
                 p['src'] in w.heads()]
         out = []
+        idx = [i for i, c in enumerate(cmds)
+               if not c.startswith('git push')]
+        remote = [i for i in idx if cmds[i].startswith(
+            ('git ls-remote', 'git fetch', 'git remote update',
+             'git for-each-ref', 'git clone'))]
+        picks = set()
+        if idx:
+            picks.update(r.sample(idx, min(3, len(idx))))
+        if remote:
+            picks.update(r.sample(remote, min(3, len(remote))))
+            picks.add(remote[-1])
+        for n in sorted(picks):
+            name = r.choice(['feature/tp-%d', 'user/dave/wip-%d',
+                             'tp-%d']) % r.randrange(1000)
+            out.append({'kind': 'thirdparty', 'cmd': n, 'action': {
+                'do': 'create_branch', 'name': name,
+                'base': r.choice(sorted(w.heads()) or ['none'])}})
         for j in range(npush):
             n = r.randrange(1000)
             name = r.choice(['feature/tp-%d', 'user/dave/wip-%d', 'wip/q/%d',
                              'quality/x-%d', 'tp-%d', 'bugfix/w/5.1/tp-%d'])
             out.append({'kind': 'thirdparty', 'push': j, 'action': {
                 'do': 'create_branch', 'name': name % n,
-                'base': r.choice(sorted(w.heads()))}})
+                'base': r.choice(sorted(w.heads()) or ['none'])}})
             if srcs:
                 out.append({'kind': 'thirdparty', 'push': j, 'action': {
                     'do': 'push_src', 'name': r.choice(srcs)}})
@@ -177,19 +202,25 @@ class C08(E1Prop):
             return ops.apply_op(w, op)
         w.stats['ops'] += 1
         w.clock.advance(op.get('dt', 1))
-        if not w.events:
-            w.step_digest(op, [])
-            return []
-        ev = w.events.pop(op['i'] % len(w.events))
+        if 'api' in op:
+            a = op['api']
+            ev = {'k': 'api', 'job': a['job'], 'kwargs': a.get('kwargs')
+                  or {}, 'json': a.get('json') or {}}
+        else:
+            if not w.events:
+                w.step_digest(op, [])
+                return []
+            ev = w.events.pop(op['i'] % len(w.events))
 
         def clean(w_):
-            recs = w_.deliver(dict(ev))
-            return [m['cmd'] for m in (recs[0]['mut'] if recs else [])
-                    if m['kind'] == 'push']
-        pushes = w.fork_variant(clean)
+            recs = w_.deliver(dict(ev), record_cmds=True)
+            rec = recs[0] if recs else {'mut': [], 'cmds': []}
+            return [[m['cmd'] for m in rec['mut'] if m['kind'] == 'push'],
+                    rec['cmds']]
+        pushes, cmds = w.fork_variant(clean)
         if 'plans' not in op:
             r = random.Random(op['pick'])
-            plans = self.actions(w, r, len(pushes))
+            plans = self.actions(w, r, len(pushes), cmds)
             if op.get('nmax') and len(plans) > op['nmax']:
                 plans = r.sample(plans, op['nmax'])
             op['plans'] = plans
@@ -203,15 +234,20 @@ class C08(E1Prop):
 
             def variant(w_, plan=plan):
                 recs = w_.deliver(dict(ev), plan=dict(plan))
-                j = plan['push']
-                sig = '%s@%s' % (plan['action']['do'],
-                                 push_sig(pushes[j]) if j < len(pushes)
-                                 else 'push')
+                j = plan.get('push', -1)
+                if 'cmd' in plan:
+                    c = cmds[plan['cmd']] if plan['cmd'] < len(cmds) else ''
+                    sig = '%s@before:%s' % (plan['action']['do'],
+                                            ' '.join(c.split()[:2]))
+                else:
+                    sig = '%s@%s' % (plan['action']['do'],
+                                     push_sig(pushes[j]) if j < len(pushes)
+                                     else 'push')
                 for rec in recs:
                     check_job_c08(w_, rec, sig)
                 check_reachability(w_, sig)
                 return {'fired': bool(recs and recs[0]['fired']),
-                        'all': bool(j < len(pushes) and
+                        'all': bool(0 <= j < len(pushes) and
                                     is_push_all(pushes[j])),
                         'status': recs[0]['status'] if recs else None}
             try:
@@ -223,7 +259,8 @@ class C08(E1Prop):
                 raise
             w.probe('third-party-variant')
             if res['fired']:
-                w._count_fault('thirdparty:' + plan['action']['do'])
+                w._count_fault('thirdparty:' + plan['action']['do'] + (
+                    '@cmd' if 'cmd' in plan else '@push'))
                 if res['all']:
                     w.probe('push-all-with-third-party')
         recs = w.deliver(ev)
